@@ -578,4 +578,173 @@ VP_RANDOM (build_near_d, 300000, 6000000, C09_BUILD_NEAR_RULE) { build_near_case
 VP_LABELS (build_near_d, C09_BUILD_LABELS, C09_NEAR_LABELS, C09_BUILD_S_LABELS)
 VP_REQUIRE_LABELS (build_near_d, C09_BUILD_NEAR_REQUIRED, "param_narrower_float(float on double matrix)")
 
+// ===================================================================================================================
+// 5. rotation builders whose axis / angle vector has components in a RATIO 2^-k (ratio_build_*)
+//    setAxisAngle with an axis tilted out of a coordinate axis / plane by 2^-k rad (gen_ratio_vec, c09_util.h: one or
+//    two components 2^-k times the largest, k = 1 .. digits+10, all sign patterns, any overall length), and
+//    setEulerAngles / Matrix44::rotate with an angle vector of the same shape (tiny but non-zero angles next to
+//    large ones).  The absolute bounds of build_* (24 eps per slot) stay; on top of them every slot is compared with
+//    the quad value at a bound scaled by the SUM OF THE MAGNITUDES OF ITS TERMS:
+//      setAxisAngle   R_ij = u_i u_j (1 - cos) + {cos | +-u_k sin}:  K eps (|u_i u_j| (|1 - cos| + |cos|) + |cos| resp. |u_k sin|)
+//                     (u is normalised in T: relative error per component; 1 - cos carries the absolute error of cos)
+//      setEulerAngles R = Rx Ry Rz: K eps (|Rx| |Ry| |Rz|)_ij - every entry is a sum of products of sines and cosines
+//      rotate         K eps (|Rx| |Ry| |Rz| |M|)_ij
+//    so that a slot which is proportional to the small component / the tiny angle is checked RELATIVE to it (an
+//    implementation that drops the component is wrong by 100 % of that slot for every k), and the other slots at a few
+//    eps absolute (a tilt of 1e-7 rad is 1e8 eps in double).  In addition the given axis must be a fixed direction:
+//    |u R - u|_j <= sum_i |u_i| bound_ij, in quad.
+//    Measured worst error / bound-without-K on the unchanged tree (C09_MEASURE): see the constants below.
+// ===================================================================================================================
+enum
+{
+    RB_AXISANGLE,
+    RB_EULER_SET,
+    RB_EULER_ROTATE,
+    RB_NOPS
+};
+// K of the term-scaled bounds.  Error analysis: setAxisAngle - two normalised components (1.75 eps each), 1 - cos, two
+// products and a sum per term: <= ~6 eps; setEulerAngles - up to three sin / cos factors (<= 1 eps each), two products,
+// one sum: <= ~4.5 eps; rotate - the same entries, a product with M and a sum of three: <= ~6.5 eps.
+// Measured worst error / (eps * sum|terms|), 2.1e6 cases per type, g++ -O2:
+//   setAxisAngle 3.49 (float) 3.46 (double), |axis^ R - axis^| / its bound 0.20; setEulerAngles 2.20 / 2.03; rotate 2.41 / 2.38
+static const double C09_K_AXIS = 16, C09_K_EULER = 12, C09_K_ROTATE = 16;
+
+// sum of the magnitudes of the terms of every entry of Rx * Ry * Rz
+static QM<4> euler_term_sums (quad rx, quad ry, quad rz)
+{
+    return absmul (absmul (rodrigues_rowvec<4> (1, 0, 0, rx), rodrigues_rowvec<4> (0, 1, 0, ry)), rodrigues_rowvec<4> (0, 0, 1, rz));
+}
+template <class T> static void check_axis_angle_scaled (vp::Ctx& c, const Matrix44<T>& M, const Vec3<T>& ax, T ang)
+{
+    const quad eps = EPS<T> (), dm = (quad) std::numeric_limits<T>::denorm_min ();
+    Q3         u   = unit (toq (ax));
+    quad       co = cosq ((quad) ang), si = sinq ((quad) ang);
+    quad       tw = qabs (1 - co) + qabs (co);
+    QM<4>      E  = rodrigues_rowvec<4> ((quad) ax.x, (quad) ax.y, (quad) ax.z, (quad) ang);
+    quad       tol[3][3];
+    for (int i = 0; i < 4; ++i)
+        for (int j = 0; j < 4; ++j)
+        {
+            if (i == 3 || j == 3)
+            {
+                VP_REQUIRE (c, M[i][j] == (T) (i == j ? 1 : 0), "m44-setAxisAngle-ratio/border", TN<T>::n () << " setAxisAngle slot [" << i << "][" << j << "] = " << M[i][j]);
+                continue;
+            }
+            quad mag   = i == j ? u[i] * u[i] * tw + qabs (co) : qabs (u[i] * u[j]) * tw + qabs (u[3 - i - j] * si);
+            tol[i][j]  = (quad) C09_K_AXIS * eps * mag + dm;
+            quad d     = qabs ((quad) M[i][j] - E.a[i][j]);
+            C09_MEAS (std::string ("m44-setAxisAngle-ratio|") + TN<T>::n () + "|slot/(eps*terms)", d / (eps * mag + dm));
+            VP_REQUIRE (c, d <= tol[i][j], "m44-setAxisAngle-ratio/slot", TN<T>::n () << " setAxisAngle slot [" << i << "][" << j << "] = " << M[i][j] << " expected " << qstr (E.a[i][j]) << " (error " << qstr (d) << ", bound " << qstr (tol[i][j]) << " = " << C09_K_AXIS << " eps x sum of |terms|); axis " << vstr (ax, 3) << " angle " << ang << " M=" << mstr (M, 4));
+        }
+    // the axis is a fixed direction of the rotation
+    for (int j = 0; j < 3; ++j)
+    {
+        quad r = -u[j], t = 0;
+        for (int i = 0; i < 3; ++i)
+        {
+            r += u[i] * (quad) M[i][j];
+            t += qabs (u[i]) * tol[i][j];
+        }
+        C09_MEAS (std::string ("m44-setAxisAngle-ratio|") + TN<T>::n () + "|axis-fixed/bound", qabs (r) / t);
+        VP_REQUIRE (c, qabs (r) <= t, "m44-setAxisAngle-ratio/axis-not-fixed", TN<T>::n () << " setAxisAngle: (axis^ * R - axis^)[" << j << "] = " << qstr (r) << " (bound " << qstr (t) << "); axis " << vstr (ax, 3) << " angle " << ang << " M=" << mstr (M, 4));
+    }
+}
+// B: the library's result; E: expected (quad); A: per-slot sum of |terms|; rows 0..2 of the rotation block (all four
+// columns for rotate), everything else must be exactly `exact`
+template <class T> static void check_term_scaled (vp::Ctx& c, const char* key, const Matrix44<T>& B, const QM<4>& E, const QM<4>& A, int ncols, double K, const Matrix44<T>& exact, const std::string& what)
+{
+    const quad eps = EPS<T> (), dm = (quad) std::numeric_limits<T>::denorm_min ();
+    VP_REQUIRE (c, (all_finite<Matrix44<T>, 4> (B)), std::string (key) + "/nonfinite", TN<T>::n () << " " << what << " produced " << mstr (B, 4));
+    for (int i = 0; i < 4; ++i)
+        for (int j = 0; j < 4; ++j)
+        {
+            if (i == 3 || j >= ncols)
+            {
+                VP_REQUIRE (c, same<T> (B[i][j], exact[i][j]), std::string (key) + "/untouched-slot", TN<T>::n () << " " << what << " slot [" << i << "][" << j << "] = " << B[i][j] << " expected exactly " << exact[i][j]);
+                continue;
+            }
+            quad d = qabs ((quad) B[i][j] - E.a[i][j]), tol = (quad) K * eps * A.a[i][j] + dm;
+            C09_MEAS (std::string (key) + "|" + TN<T>::n () + "|slot/(eps*terms)", d / (eps * A.a[i][j] + dm));
+            VP_REQUIRE (c, d <= tol, std::string (key) + "/slot", TN<T>::n () << " " << what << " slot [" << i << "][" << j << "] = " << B[i][j] << " expected " << qstr (E.a[i][j]) << " (error " << qstr (d) << ", bound " << qstr (tol) << " = " << K << " eps x sum of |terms|); result " << mstr (B, 4));
+        }
+}
+enum
+{
+    RBL0 = RB_NOPS,
+    RBL_MULTIPERIOD = RBL0 + RL_COUNT,
+    RBL_ANGLE_TINY,
+    RBL_CURRENT_IDENTITY,
+    RBL_CURRENT_NONAFFINE
+};
+template <class T> static void ratio_build_case (vp::Ctx& c)
+{
+    vp::Src&  s  = c.s;
+    int       op = (int) s.below (4); // setAxisAngle twice as often
+    RatioInfo ri;
+    if (op == 3) op = RB_AXISANGLE;
+    c.label (op);
+    switch (op)
+    {
+        case RB_AXISANGLE:
+        {
+            // any length that keeps every component normal and the squared length finite
+            const int   lo = FInfo<T>::minexp + Dig<T>::n + 12;
+            Vec3<T>     ax = gen_ratio_vec<T> (s, ri, lo > AxisLim<T>::emin ? lo : AxisLim<T>::emin, AxisLim<T>::emax);
+            T           ang = gen_angle<T> (s);
+            Matrix44<T> m4;
+            gen_matrix<Matrix44<T>, T, 4> (s, m4);
+            Vec3<T> p3 = gen_point<T> (s);
+            label_ratio<T> (c, ri, RBL0);
+            if (std::fabs (ang) > 3.2) c.label (RBL_MULTIPERIOD);
+            if (ang != 0 && std::fabs (ang) < 1e-3) c.label (RBL_ANGLE_TINY);
+            VP_NOTE (c, TN<T>::n () << " M44.setAxisAngle (component ratios) axis=" << vstr (ax, 3) << " angle=" << ang << " previous=" << mstr (m4, 4) << " p=" << vstr (p3, 3));
+            m4.setAxisAngle (ax, ang);
+            check_axis_angle_scaled<T> (c, m4, ax, ang);
+            check_builder<T, 4> (c, "m44-setAxisAngle", m4, rodrigues_rowvec<4> ((quad) ax.x, (quad) ax.y, (quad) ax.z, (quad) ang), 24, true, p3, 48);
+            break;
+        }
+        case RB_EULER_SET:
+        {
+            Vec3<T>     a = gen_ratio_vec<T> (s, ri, -8, 5);
+            Matrix44<T> m4;
+            gen_matrix<Matrix44<T>, T, 4> (s, m4);
+            label_ratio<T> (c, ri, RBL0);
+            if (ri.e >= 2) c.label (RBL_MULTIPERIOD);
+            c.label (RBL_ANGLE_TINY);
+            VP_NOTE (c, TN<T>::n () << " M44.setEulerAngles (component ratios) r=" << vstr (a, 3) << " previous=" << mstr (m4, 4));
+            m4.setEulerAngles (a);
+            check_term_scaled<T> (c, "m44-setEulerAngles-ratio", m4, E_euler ((quad) a.x, (quad) a.y, (quad) a.z), euler_term_sums ((quad) a.x, (quad) a.y, (quad) a.z), 3, C09_K_EULER, Matrix44<T> (), "setEulerAngles " + vstr (a, 3));
+            break;
+        }
+        default:
+        {
+            Vec3<T>     a = gen_ratio_vec<T> (s, ri, -8, 5);
+            Matrix44<T> m4, b4;
+            int         base, eij;
+            bool        masked;
+            int         kind = gen_structured<Matrix44<T>, T, 4> (s, m4, base, masked, eij);
+            b4               = m4;
+            label_ratio<T> (c, ri, RBL0);
+            if (ri.e >= 2) c.label (RBL_MULTIPERIOD);
+            c.label (RBL_ANGLE_TINY);
+            if (kind == 0) c.label (RBL_CURRENT_IDENTITY);
+            if (kind == 2) c.label (RBL_CURRENT_NONAFFINE);
+            VP_NOTE (c, TN<T>::n () << " M44.rotate (component ratios) r=" << vstr (a, 3) << " M=" << mstr (b4, 4));
+            m4.rotate (a);
+            QM<4> Mq = QM<4>::from (b4);
+            check_term_scaled<T> (c, "m44-rotate-ratio", m4, E_euler ((quad) a.x, (quad) a.y, (quad) a.z) * Mq, absmul (euler_term_sums ((quad) a.x, (quad) a.y, (quad) a.z), Mq), 4, C09_K_ROTATE, b4, "rotate " + vstr (a, 3) + " of " + mstr (b4, 4));
+            break;
+        }
+    }
+}
+#define C09_RATIO_BUILD_RULE                                                                                           \
+    "setAxisAngle (1/2) with an axis, setEulerAngles / Matrix44::rotate (1/4 each) with an angle vector, in which one or two components are 2^-k times the largest, k uniform in 1..digits+10 (own k per small component), the third component large or exactly zero, all 8 sign patterns, significands 1 or random, overall scale 2^e (axis: any normal length down to 2^-90 / 2^-957 and up to 2^60 / 2^500; angles 2^[-8,5]; e = 0 in half of the cases); angle of setAxisAngle from the build_* classes; previous contents / current matrix from the general resp. structured generator; every slot against the quad matrix at K eps x (sum of the magnitudes of the slot's terms), the absolute bounds of build_*, and axis^ * R = axis^; every case non-trivial"
+#define C09_RATIO_BUILD_LABELS "m44_setAxisAngle", "m44_setEulerAngles", "m44_rotate", C09_RATIO_LABELS, "angle_beyond_one_period", "angle_or_component_below_1e-3", "current_identity", "current_nonaffine"
+VP_RANDOM (ratio_build_f, 300000, 6000000, C09_RATIO_BUILD_RULE) { ratio_build_case<float> (c); }
+VP_LABELS (ratio_build_f, C09_RATIO_BUILD_LABELS)
+VP_REQUIRE_LABELS (ratio_build_f, C09_RATIO_BUILD_LABELS)
+VP_RANDOM (ratio_build_d, 300000, 6000000, C09_RATIO_BUILD_RULE) { ratio_build_case<double> (c); }
+VP_LABELS (ratio_build_d, C09_RATIO_BUILD_LABELS)
+VP_REQUIRE_LABELS (ratio_build_d, C09_RATIO_BUILD_LABELS)
+
 VP_MAIN ("C09")
